@@ -127,7 +127,19 @@ def cases(tier, rng):
                   'n:9999999999/1', 'n:11111111111/1', 'n:-1/1', 'n:7/2', 'n:2/1', 'n:8/1', 'n:19/1', 'z', 's:',
                   'b:1', 'b:0'] + ['e:' + t for t in core.TAG_ERRS]:
             yield case('b2d', v, b=b)
-        yield case('b2d', 'n:101/1', b=b, fl=True)
+        # numeric operands arrive as int or as float (cell values are floats): digit strings read as numbers,
+        # incl. ones ending in 0 and the 10-digit sign-bit patterns
+        nums = {0, 1, 10, 100, 101, 110, 1010, 1000000000, 1111111110, int(al[-1] * 10) if b != 16 else 9999999999}
+        dec_al = [ch for ch in al if ch.isdigit()]
+        for _ in range(600 if thorough else 60):
+            nums.add(int(''.join(rng.choice(dec_al) for _ in range(rng.randint(1, 10)))))
+        for n in sorted(nums):
+            yield case('b2d', n_(n), b=b, fl=True)
+            yield case('b2d', n_(n), b=b)
+    for (bi, bo) in FN_B2B:
+        for n in (0, 10, 1010, 1000000000, 1111111110, 7770, 100):
+            if all(ch in ALPHA[bi] for ch in str(n)):
+                yield case('b2b', n_(n), bi=bi, bo=bo, fl=True)
     # --- base to base
     for (bi, bo) in FN_B2B:
         al = ALPHA[bi]
